@@ -809,7 +809,7 @@ package analysis
 // path-level parameters (analyzeOperations) and shared parameters / shared response headers (initialize)
 //@ func (s *Spec) analyzeOperations(path, pi)
 //@   aspect patterns
-//@   requires s != nil && pi != nil && idxMaps(s)
+//@   requires s != nil && pi != nil && idxMaps(s) && (forall mth in dom(s.operations) :: s.operations[mth] != nil)
 //@   modifies heaps INDEX, heap spec.Parameter
 //@   ensures idxMaps(s) && s.spec == old(s.spec) && s.patterns.parameters == old(s.patterns.parameters) && s.patterns.headers == old(s.patterns.headers) && s.patterns.schemas == old(s.patterns.schemas) && s.patterns.allPatterns == old(s.patterns.allPatterns)
 //@   ensures forall i in 0..len(pi.Parameters) :: pi.Parameters[i].Pattern != "" ==> pkey(path.Join("/paths", jsonpointer.Escape(path)), i) in dom(s.patterns.parameters) && pkey(path.Join("/paths", jsonpointer.Escape(path)), i) in dom(s.patterns.allPatterns)
@@ -900,7 +900,7 @@ package analysis
 // path-level parameters (analyzeOperations) and shared parameters / shared response headers (initialize)
 //@ func (s *Spec) analyzeOperations(path, pi)
 //@   aspect enums
-//@   requires s != nil && pi != nil && idxMaps(s)
+//@   requires s != nil && pi != nil && idxMaps(s) && (forall mth in dom(s.operations) :: s.operations[mth] != nil)
 //@   modifies heaps INDEX, heap spec.Parameter
 //@   ensures idxMaps(s) && s.spec == old(s.spec) && s.enums.parameters == old(s.enums.parameters) && s.enums.headers == old(s.enums.headers) && s.enums.schemas == old(s.enums.schemas) && s.enums.allEnums == old(s.enums.allEnums)
 //@   ensures forall i in 0..len(pi.Parameters) :: len(pi.Parameters[i].Enum) > 0 ==> pkey(path.Join("/paths", jsonpointer.Escape(path)), i) in dom(s.enums.parameters) && pkey(path.Join("/paths", jsonpointer.Escape(path)), i) in dom(s.enums.allEnums)
